@@ -49,6 +49,19 @@ def run_case(seed):
                     d[..., r2.randrange(d.shape[-1])] = 0.0
                     nzero += 1
     count(f"boxes with an all-zero field={'yes' if nzero else 'no'}")
+    # binary file numbers beyond 99999 (AMReX then writes six digits), and field names that are decimal numbers
+    if r2.random() < 0.3:
+        lev = r2.choice(pf.levels)
+        k = r2.randrange(len(lev.files))
+        lev.files[k] = (f"Cell_D_{100000 + r2.randrange(900000)}", lev.files[k][1])
+        count("a binary file with a six-digit number=yes")
+    if r2.random() < 0.3 and len(pf.fields) >= 2:
+        n = len(pf.fields)
+        for pos, nm in zip(r2.sample(range(n), min(n, 3)), r2.sample([str(x) for x in range(n)], min(n, 3))):
+            if nm not in pf.fields:
+                pf.fields[pos] = nm
+        keys = c01.reader_keys(pf.fields)
+        count("field names that are decimal numbers=yes")
     path = core.scratch_dir(f"c10_{seed}")
     gen.write_plotfile(pf, path)
     lv_sx = [gen.level_to_sx(pf, lv) for lv in range(pf.nlevels)]
